@@ -138,3 +138,50 @@ Proof.
   intros H y Hy. apply in_flat_map in Hy. destruct Hy as [x [Hx Hy]].
   apply in_flat_map. exists x. split; [exact Hx|]. apply H. exact Hy.
 Qed.
+
+(* ---- statement loops *)
+Lemma stmts_in_app a b : stmts_in (a ++ b) = stmts_in a ++ stmts_in b.
+Proof. unfold stmts_in. apply flat_map_app. Qed.
+
+Lemma each_stmt_ok ns f g :
+  Forall (fun n => is_stmt_node n = true) ns ->
+  (forall s, f s = Ok (g s)) ->
+  each_stmt ns f = Ok (flat_map g (stmts_in ns)).
+Proof.
+  intros H Hf. unfold each_stmt.
+  rewrite (mapM_ok _ (fun n => match n with N_Statement s => g s | _ => [] end)).
+  - cbn. rewrite flat_map_concat_map. f_equal.
+    induction H as [|n ns Hn Hns IH]; cbn; [reflexivity|].
+    destruct n; try discriminate Hn. cbn. rewrite IH. reflexivity.
+  - eapply Forall_impl; [|exact H]. intros n Hn. destruct n; try discriminate Hn. cbn. apply Hf.
+Qed.
+
+Lemma stmts_in_filter (p : node -> bool) ns :
+  stmts_in (filter p ns) = filter (fun s => p (N_Statement s)) (stmts_in ns).
+Proof.
+  induction ns as [|n ns IH]; [reflexivity|].
+  cbn [filter]. destruct (p n) eqn:E.
+  - destruct n; cbn [stmts_in flat_map app filter] in *; fold (stmts_in (filter p ns)); fold (stmts_in ns);
+      rewrite ?E, IH; reflexivity.
+  - destruct n; cbn [stmts_in flat_map app filter] in *; fold (stmts_in (filter p ns)); fold (stmts_in ns);
+      rewrite ?E, IH; reflexivity.
+Qed.
+
+Theorem each_stmt_extract1 t n f g :
+  (t = Target_For \/ t = Target_Block) ->
+  (forall s, f s = Ok (g s)) ->
+  (forall s, Target_eqb (kind_of (N_Statement s)) t = false -> g s = []) ->
+  each_stmt (extract_target_from_node t n) f = Ok (flat_map g (stmts_in (pre n))).
+Proof.
+  intros Ht Hf Hg. rewrite extract_single_lemma.
+  rewrite (each_stmt_ok _ f g).
+  - rewrite stmts_in_filter. rewrite flat_map_filter_irrelevant; [reflexivity|]. exact Hg.
+  - apply Forall_forall. intros m Hm. apply filter_In in Hm. destruct Hm as [_ Hm].
+    apply Target_eqb_eq in Hm. apply stmt_kind_node. rewrite Hm. destruct Ht; subst; tauto.
+  - exact Hf.
+Qed.
+
+(* the same loops, when the nodes are produced by a detector-local extraction *)
+Lemma mapM_ok_ext {A B} (f : A -> res B) (g : A -> B) l :
+  (forall x, f x = Ok (g x)) -> mapM f l = Ok (map g l).
+Proof. intros H. apply mapM_ok. apply Forall_forall. intros x _. apply H. Qed.
